@@ -4,7 +4,7 @@
    reader); every table, buffer size and `m_bufferRemaining < k` guard comes from GenSer.v, which
    translator/gen_ser.py regenerates from /repo on every run. *)
 From Coq Require Import NArith List Bool.
-Require Import XV.SerDefs XV.XmlParseDefs XV.SerUtfModel XV.SerUtfModel2 XV.SerEscModel XV.SerEscModel2.
+Require Import XV.SerDefs XV.XmlParseDefs XV.SerUtfModel XV.SerUtfModel2 XV.SerEscModel XV.SerEscModel2 XV.XmlDocDefs XV.SerDocDefs XV.SerUtf8Sim XV.SerDocModel XV.SerDocModel2.
 Import ListNotations.
 Local Open Scope N_scope.
 
@@ -263,3 +263,81 @@ Example comment_cr_in_this_variant :
   else payload (write_comment fam_utf16 false [120; 13]) = Ok [60; 33; 45; 45; 120; 13; 45; 45; 62].
 Proof. vm_compute. repeat split; reflexivity. Qed.
 Print Assumptions comment_cr_in_this_variant.
+
+(* ---- the UTF-8 serializer writes the UTF-8 encoding of what the UTF-16 serializer writes ------------- *)
+(* for every event script (CDATA-section elements included) whose strings are 16-bit units and whose names
+   have paired surrogates: whenever the UTF-16 document is u, then u has paired surrogates and the UTF-8
+   document is the RFC 3629 encoding of its code points (an exception of the UTF-16 serializer leaves
+   the UTF-8 side unconstrained).  This carries every unit-level statement above (content_roundtrip,
+   attr_roundtrip, comments) over to the UTF-8 writer. *)
+Theorem utf8_document_is_encoding_of_utf16_document : forall v11 ver enc es,
+  str_ok ver = true -> str_ok enc = true -> forallb sim_event_ok es = true ->
+  match payload (document_items fam_utf16 v11 ver enc es) with
+  | Ok u => exists cps, code_points u = Some cps /\
+                        payload (document_items fam_utf8 v11 ver enc es) = Ok (flat_map utf8_spec cps) /\
+                        SerUtf8Sim.small u = true
+  | _ => True
+  end.
+Proof. exact sim_document. Qed.
+Print Assumptions utf8_document_is_encoding_of_utf16_document.
+
+(* hence: whatever the model reader returns for the UTF-16 document, the UTF-8 reader (strict UTF-8
+   decoding, then the same reader) returns for the UTF-8 document *)
+Theorem utf8_document_transfer : forall v11 ver enc es bs t,
+  str_ok ver = true -> str_ok enc = true -> forallb sim_event_ok es = true ->
+  payload (document_items fam_utf16 v11 ver enc es) = Ok bs -> parse_doc v11 bs = Some t ->
+  exists bytes, payload (document_items fam_utf8 v11 ver enc es) = Ok bytes /\
+                parse_doc_utf8 v11 bytes = Some t.
+Proof. exact SerUtf8Sim.utf8_document_transfer. Qed.
+Print Assumptions utf8_document_transfer.
+
+(* ---- serialize_parse: the document level ------------------------------------------------------------ *)
+(* parse_doc (XmlDocDefs.v) is a model reader for whole documents written from the XML recommendations:
+   XML declaration, start tags with attributes, empty-element tags, end tags, comments, PIs, text runs
+   with references and CDATA sections (handed to parse_content / parse_attr), then the nesting check
+   (matching end tags, one root element, no character data outside it).
+   tree_ok v11 es (SerDocDefs.v, a boolean): the event script is a tree of the XPath data model —
+   well nested with one root, no empty and no adjacent text nodes, XML Names, strings of Chars of the
+   version with paired surrogates, comment data without "--" / trailing "-" and PI data without "?>" /
+   leading white space, both without characters that survive only as references; no CDATA-section
+   elements (first version).
+   For EVERY such tree, both XML versions: the serializer succeeds and the reader returns exactly the tree. *)
+Theorem serialize_parse_utf16 : forall v11 ver enc es,
+  tree_ok v11 es = true -> decl_string_ok ver = true -> decl_string_ok enc = true ->
+  exists bs, payload (document_items fam_utf16 v11 ver enc es) = Ok bs /\
+             parse_doc v11 bs = Some (map pev_of es).
+Proof. exact SerDocModel.serialize_parse_utf16. Qed.
+Print Assumptions serialize_parse_utf16.
+
+(* the UTF-8 writer: strict UTF-8 decoding, then the same reader (script_small: every string consists
+   of 16-bit units; str_ok: 16-bit units with paired surrogates) *)
+Theorem serialize_parse_utf8 : forall v11 ver enc es,
+  tree_ok v11 es = true -> script_small es = true ->
+  decl_string_ok ver = true -> decl_string_ok enc = true -> str_ok ver = true -> str_ok enc = true ->
+  exists bytes, payload (document_items fam_utf8 v11 ver enc es) = Ok bytes /\
+                parse_doc_utf8 v11 bytes = Some (map pev_of es).
+Proof. exact SerDocModel2.serialize_parse_utf8. Qed.
+Print Assumptions serialize_parse_utf8.
+
+(* through the 512-unit staging buffers (serialize = payload of the items, serialize_transparent) *)
+Theorem serialize_parse : forall v11 ver enc es,
+  tree_ok v11 es = true -> script_small es = true ->
+  decl_string_ok ver = true -> decl_string_ok enc = true -> str_ok ver = true -> str_ok enc = true ->
+  (exists bytes, serialize EncUtf8 v11 ver enc es = Ok bytes /\ parse_doc_utf8 v11 bytes = Some (map pev_of es)) /\
+  (exists units, serialize EncUtf16 v11 ver enc es = Ok units /\ parse_doc v11 units = Some (map pev_of es)).
+Proof.
+  intros v11 ver enc es Ht Hs Dv De Sv Se. rewrite !SerUtfModel.serialize_transparent. cbn [fam_of]. split.
+  - exact (SerDocModel2.serialize_parse_utf8 v11 ver enc es Ht Hs Dv De Sv Se).
+  - exact (SerDocModel.serialize_parse_utf16 v11 ver enc es Ht Dv De).
+Qed.
+Print Assumptions serialize_parse.
+
+Example serialize_parse_hypotheses_satisfiable :
+  let es := [EComment [97; 98]; EStart [114] [([97], [34; 60; 9; 8364; 55357; 56832]); ([120; 58; 98], [])];
+             EText [60; 38; 13; 120]; EStart [101] []; EEnd [101]; EPI [112] [100; 32; 63]; EPI [113] [];
+             EStart [102] [([105; 100], [49])]; EText [93; 93; 62]; EComment []; EEnd [102]; EEnd [114];
+             EComment [122]] in
+  tree_ok false es = true /\ tree_ok true es = true /\ script_small es = true /\
+  decl_string_ok [49; 46; 48] = true /\ str_ok [85; 84; 70; 45; 56] = true.
+Proof. vm_compute. repeat split; reflexivity. Qed.
+Print Assumptions serialize_parse_hypotheses_satisfiable.
